@@ -15,7 +15,10 @@ from . import env  # noqa: F401
 import fsic
 
 EXC = {'ZeroDivisionError': ZeroDivisionError, 'ValueError': ValueError, 'KeyError': KeyError,
-       'RuntimeError': RuntimeError, 'FloatingPointError': FloatingPointError}
+       'RuntimeError': RuntimeError, 'FloatingPointError': FloatingPointError,
+       # the library's own exception classes can come out of user code too (e.g. a nested model solved inside a pass)
+       'SolutionError': fsic.exceptions.SolutionError, 'NonConvergenceError': fsic.exceptions.NonConvergenceError,
+       'FSICError': fsic.exceptions.FSICError, 'IndexError': IndexError, 'Exception': Exception}
 
 
 def dec(v):
